@@ -881,11 +881,14 @@ impl ConstantTimeEq for G2Projective {
         // => (x/z , y/z) equal to (x'/z' , y'/z')
         // => (xz' == x'z) & (yz' == y'z)
 
-        let x1 = self.x() * other.z();
-        let y1 = self.y() * other.z();
+        // Jacobian: (x/z^2, y/z^3) == (x'/z'^2, y'/z'^3)
+        let z1z1 = self.z().square();
+        let z2z2 = other.z().square();
+        let x1 = self.x() * z2z2;
+        let y1 = self.y() * z2z2 * other.z();
 
-        let x2 = other.x() * self.z();
-        let y2 = other.y() * self.z();
+        let x2 = other.x() * z1z1;
+        let y2 = other.y() * z1z1 * self.z();
 
         let self_is_zero = self.is_identity();
         let other_is_zero = other.is_identity();
